@@ -640,6 +640,20 @@ def check_C02(ctx):
             if hs is None:
                 hs = families[label.split(":")[1]]
             jobs.append((str(gp), {l: {} for l in hs}, "generated-prologue/" + label))
+    # regression sources: one per repaired defect / recorded finding of this property, with the hook selection that showed it
+    regs = [
+        ("for_target_literal", "xs = [(1, 2), (3, 4)]\nfor i, n in xs:\n    t = i + n\nfor (a, b) in xs:\n    pass\n", ["_tuple"]),            # fixed d309581
+        ("for_target_literal_all_but_for", "xs = [(1, 2)]\nfor i, n in xs:\n    pass\n", [l for l in leaves if l not in ("enter_for", "normal_exit_for")]),
+        ("match_pattern", "class C:\n    RED = 1\nx = 1\nmatch x:\n    case C.RED:\n        y = 1\n    case _:\n        y = 2\n", leaves),   # finding
+        ("comprehension_target", "d = {}\nxs = [1, 2]\nys = [1 for d[0] in xs]\n", leaves),                                                  # finding
+    ]
+    reg_dir = ctx.work.sub("c02reg")
+    for name_, src_, hs_ in regs:
+        rd = reg_dir / name_
+        rd.mkdir()
+        rp_ = rd / "m.py"
+        rp_.write_text(src_)
+        jobs.append((str(rp_), {l: {} for l in hs_}, "regression/" + name_))
     with mp.get_context("fork").Pool(16) as pool:
         res = pool.map(sweep.check_file, jobs, chunksize=2)
     st = {"accepted": 0, "declined": 0, "declined_valid": 0, "files": len(sample), "jobs": len(jobs)}
@@ -866,6 +880,9 @@ def check_C08(ctx):
     h, leaves, names = _hier()
     rng = random.Random("c08-%d" % ctx.seed)
     progs = _programs(ctx, 6 if ctx.quick else 50)
+    # loops whose else clause reports events of its own: the order of a loop's exit events relative to them must not
+    # depend on the other hooks (repaired defect 1983539)
+    progs.append(("forelse", {"main.py": "out = []\nfor u in [1, 2]:\n    out.append(u)\nelse:\n    i = 0\n    while i < 2:\n        i += 1\n    for w in [3]:\n        out.append(w)\n    else:\n        out.append(9)\n"}))
     fam = {}
 
     def lv(d, acc):
@@ -898,6 +915,8 @@ def check_C08(ctx):
         for must in ("_break", "_continue", "exit_for", "exit_while", "_return", "function_exit", "exception", "read_identifier", "pre_call", "add"):
             if must in pool_ and must not in hs and (pname in ("nested", "witness") or rng.random() < 0.4):
                 hs.append(must)
+        if pname == "forelse":
+            hs = [x for x in ("exit_control_flow", "exit_for", "normal_exit_for", "normal_exit_while", "exit_while") if x in pool_]
         for hk in hs:
             supersets = [("all", names)]
             f_ = [k for k, v in fam.items() if hk in v or hk == k]
